@@ -128,9 +128,19 @@ def theorem_names(prop: str) -> list[str]:
     for mod in modules(prop):
         f = LEAN / "DelbModel" / "Props" / f"{mod}.lean"
         src = strip_lean_comments(f.read_text())
-        ns = re.search(r"^namespace\s+(\S+)", src, re.M)
-        prefix = ns.group(1) + "." if ns else ""
-        names += [prefix + m for m in re.findall(r"^theorem\s+([^\s:({\[]+)", src, re.M)]
+        stack = []  # a file may hold several (non-nested or nested) namespace sections
+        for line in src.splitlines():
+            m = re.match(r"^namespace\s+(\S+)", line)
+            if m:
+                stack.append(m.group(1))
+                continue
+            m = re.match(r"^end\s+(\S+)", line)
+            if m and stack and stack[-1] == m.group(1):
+                stack.pop()
+                continue
+            m = re.match(r"^(?:protected\s+|private\s+)?theorem\s+([^\s:({\[]+)", line)
+            if m:
+                names.append(".".join(stack + [m.group(1)]))
     return names
 
 
